@@ -79,6 +79,13 @@ def draw_op(draw, T, vals, families=None):
                 if seen:
                     it["k"] = "newaxis"
                 seen = True
+        if k >= 2 and n > 0 and draw(st.integers(0, 3)) == 0:
+            # an array index followed by a range that selects nothing: every list of the next level becomes empty but stays
+            # (added after the seeded change C02-d - RegularArray losing its length there - was seen by C01 only)
+            m = draw(st.integers(1, 3))
+            items[0] = {"k": "array", "data": [draw(st.integers(-n, n - 1)) for _ in range(m)]}
+            b = draw(st.integers(-2, 4))
+            items[1] = {"k": "range", "start": b, "stop": draw(st.sampled_from([b, b, 0])), "step": draw(st.sampled_from([None, 1, 2]))}
         return {"op": f, "items": items}
     if f in ("num", "flatten", "localindex"):
         return {"op": f, "axis": draw(axis_for(T))}
